@@ -10,7 +10,7 @@ from vp import core, gen, volt, ref_guppi
 
 PROP_ID = 'C20'
 LEVEL = 'exploration'
-BUDGET = {'quick': 4000, 'thorough': 20000}
+BUDGET = {'quick': 8000, 'thorough': 60000}
 EXHAUSTIVE = {'quick': False, 'thorough': True}
 RULE = ('Arithmetic tuples (sample_rate x num_branches x num_taps x num_chans x antennas x pols x bits x windows-per-block x '
         'num_blocks): Hypothesis draws from the product in the quick tier, the thorough tier enumerates the whole product '
@@ -23,7 +23,7 @@ RULE = ('Arithmetic tuples (sample_rate x num_branches x num_taps x num_chans x 
         'library default configuration; distinct by case hash.')
 ASSUMPTIONS = ['1e-9 relative boundary rule from the property', 'unit drift rate compared in magnitude',
                'sample counter installed by wrapping antenna.get_samples inside the harness']
-REQUIRED_CLASSES = ['recorded', 'recorded_multi_file', 'near_boundary', 'before=preview_stream', 'before=aborted_record', 'before=earlier_record', 'exact_multiple', 'array', 'single', 'bits=4', 'bits=8']
+REQUIRED_CLASSES = ['recorded', 'recorded_multi_file', 'near_boundary', 'before=preview_stream', 'before=aborted_record', 'before=earlier_record', 'exact_multiple', 'array', 'array_with_delays', 'single', 'bits=4', 'bits=8', 'from_data_backend', 'from_data_request=longer']
 
 RATES = [3e9, 2.048e9, 187.5e6, 1e6, 3.3e9]
 BRANCHES = [8, 64, 1024, 4096]
@@ -54,6 +54,10 @@ def strategy(tier):
         'tchans_per_block': st.integers(1, 64),
         'record': st.booleans(), 'nsb': st.integers(1, 6), 'bpf': st.sampled_from([1, 2, 3, 128]),
         'before': st.sampled_from([None, None, 'preview_stream', 'aborted_record', 'earlier_record']), 'k': st.integers(1, 50),
+        # array sources: per-antenna delays (samples) of the shared background
+        'delays': st.one_of(st.just([0] * 8), st.lists(st.integers(0, 6), min_size=8, max_size=8)),
+        # afterwards a backend is built on the recording just made and records again (equal / longer / shorter request)
+        'redo': st.sampled_from([None, None, 'equal', 'longer', 'longer', 'shorter']), 'redo_mode': st.sampled_from(['num_blocks', 'obs_length']),
     })
 
 
@@ -71,10 +75,12 @@ def make_backend(c):
     B = min(c['B'], 4096)
     if c['na'] > 1:
         src = AN.MultiAntennaArray(num_antennas=c['na'], sample_rate=c['sr'], fch1=6e9, ascending=c['ascending'],
-                                   num_pols=c['npol'], delays=[0] * c['na'], seed=1)
+                                   num_pols=c['npol'], delays=list(c.get('delays', [0] * 8))[:c['na']], seed=1)
         for a in src.antennas:
             for s in a.streams:
                 s.add_noise(0, 1)
+        for s in src.bg_streams:
+            s.add_noise(0, 0.5)
     else:
         src = AN.Antenna(sample_rate=c['sr'], fch1=6e9, ascending=c['ascending'], num_pols=c['npol'], seed=1)
         for s in src.streams:
@@ -104,6 +110,8 @@ def run_case(case, ctx):
     tbin = Fraction(B) / sr
     tpb = spb * tbin
     obs.cls('array' if c['na'] > 1 else 'single', f'bits={c["nbits"]}')
+    if c['na'] > 1 and any(list(c.get('delays', [0] * 8))[:c['na']]):
+        obs.cls('array_with_delays')
     if c.get('enumerated'):
         obs.cls('enumerated')
     obs.nontrivial = True
@@ -249,6 +257,46 @@ def run_case(case, ctx):
             if abs(Fraction(float(h['SCANLEN'])) - nb * tpb) > Fraction(1, 10 ** 12) * nb * tpb:
                 obs.fail('scanlen', f'{h["SCANLEN"]} vs {float(nb * tpb)!r}')
                 break
+        # ---- a backend built on that recording (injection onto existing data): same accounting, and a request beyond
+        # the input records, and accounts for, the blocks the input holds
+        if c.get('redo') and not obs.violations and len(blocks) == nb:
+            from setigen.voltage import antenna as AN, quantization as Q, polyphase_filterbank as P
+            obs.cls('from_data_backend', 'from_data_request=' + c['redo'])
+            src2 = AN.Antenna(sample_rate=c['sr'], fch1=6e9, ascending=c['ascending'], num_pols=c['npol'], seed=2) if c['na'] == 1 else \
+                AN.MultiAntennaArray(num_antennas=c['na'], sample_rate=c['sr'], fch1=6e9, ascending=c['ascending'], num_pols=c['npol'], seed=2)
+            fb = P.PolyphaseFilterbank(num_taps=c['taps'], num_branches=B)
+            ok, be2 = core.call(obs, 'from_data', lambda: BE.RawVoltageBackend.from_data(
+                stem, src2, digitizer=Q.RealQuantizer(num_bits=8), filterbank=fb, start_chan=0, num_subblocks=c['nsb']))
+            if ok:
+                if (be2.samples_per_block, be2.block_size, be2.num_chans) != (spb, z['block_size'], z['nch']) or \
+                        abs(Fraction(be2.time_per_block) - tpb) > Fraction(1, 10 ** 12) * tpb:
+                    obs.fail('from_data_sizes', f'{be2.samples_per_block} {be2.block_size} {be2.num_chans} {be2.time_per_block!r} vs {spb} {z["block_size"]} {z["nch"]} {float(tpb)!r}')
+                req = {'equal': nb, 'longer': nb + 2, 'shorter': max(1, nb - 1)}[c['redo']]
+                n2 = min(req, nb)
+                stem2 = ctx.path('acc2')
+                if c.get('redo_mode') == 'obs_length':
+                    kw2 = dict(obs_length=float(req * tpb) * (1 + 1e-6), length_mode='obs_length')
+                else:
+                    kw2 = dict(num_blocks=req, length_mode='num_blocks')
+                ok, _ = core.call(obs, 'record[from_data]', lambda: be2.record(output_file_stem=stem2, header_dict={}, digitize=True,
+                                                                             load_template=False, verbose=False, **kw2))
+                if ok:
+                    try:
+                        _, blocks2 = volt.read_payloads(stem2)
+                    except ref_guppi.RawFormatError as e:
+                        obs.fail('unparseable_from_data', str(e)[:200])
+                        return obs
+                    tag = c['redo']
+                    if len(blocks2) != n2 or be2.num_blocks != n2:
+                        obs.fail(f'from_data_blocks:{tag}', f'{len(blocks2)} written, num_blocks {be2.num_blocks}, expected {n2} (requested {req}, input {nb})')
+                    elif be2.total_obs_num_samples != n2 * spb * B or abs(Fraction(be2.obs_length) - n2 * tpb) > Fraction(1, 10 ** 12) * n2 * tpb:
+                        obs.fail(f'from_data_accounting:{tag}', f'total {be2.total_obs_num_samples} obs_length {be2.obs_length!r} vs {n2 * spb * B} / {float(n2 * tpb)!r} (requested {req}, input {nb})')
+                    else:
+                        for j, b in enumerate(blocks2):
+                            h = b['header']
+                            if abs(Fraction(float(h['SCANLEN'])) - n2 * tpb) > Fraction(1, 10 ** 9) * n2 * tpb:
+                                obs.fail(f'from_data_scanlen:{tag}', f'{h["SCANLEN"]} vs {float(n2 * tpb)!r} (requested {req}, input {nb})')
+                                break
     else:
         # the same bookkeeping without running the pipeline: replicate record()'s length arithmetic through the API
         be.num_blocks = nb
